@@ -173,7 +173,13 @@ func c01bRunInBubble(c c01bCase) (out Outcome) {
 		id := uint64(5000 + 10*si)
 		retire := func(r *sim.Region) {
 			stale[string(r.Name)+"@"+r.Addr] = true
-			if touched[string(r.Name)] {
+			// (the client may hold a region no step asked for: re-establishing a region that was split looks its
+			// START key up and caches the first daughter, whatever row the waiting request was for)
+			cached := touched[string(r.Name)]
+			for _, cr := range gohbase.VerifCachedRegions(client) {
+				cached = cached || string(cr.Name()) == string(r.Name)
+			}
+			if cached {
 				staleTouched++
 			}
 		}
@@ -392,7 +398,7 @@ func c01bRunInBubble(c c01bCase) (out Outcome) {
 				// locations that went stale cost one lookup each when they are found out (and that lookup may
 				// bring a region the step did not ask for into the cache): an upper bound is what remains
 				if got > want+staleTouched && len(st.Concurrent) == 0 {
-					return viol("meta-lookups", "step %d on %q: %d meta lookup(s) for %d region(s) touched for the first time and %d cached location(s) invalidated so far", si, st.Table, got, want, staleTouched)
+					return viol("meta-lookups", "step %d on %q: %d meta lookup(s) for %d region(s) touched for the first time and %d cached location(s) invalidated so far; requests seen, most recent first:\n%s", si, st.Table, got, want, staleTouched, cl.RecentExecs(16))
 				}
 			} else if got != want && len(st.Concurrent) == 0 {
 				return viol("meta-lookups", "step %d on %q: %d meta lookup(s), but %d region(s) were touched for the first time (keys inside known regions must come from the cache, others from hbase:meta)", si, st.Table, got, want)
